@@ -86,6 +86,21 @@ CLAIMS["C19"] = dict(
     design_ref="DESIGN.md section 4, C19",
     technique="static analysis: sign-parity chain over reaching definitions, dominator ordering rules in four sibling drivers, algebraic normal forms for the diagonal change of variables")
 
+CLAIMS["C06"] = dict(
+    category="other",
+    text=("Decides: (D1) exact algebraic identities: for the four boundary-projection helpers |z + tau d|^2 = Delta^2 in the "
+          "inner product the caller's zz belongs to (algebraic square-root atom, Gram atoms, linear-operator atoms), "
+          "update_step_length_squared is the expansion of <z+ad,z+ad>, the preconditioned recurrences have the published "
+          "form and receive the current rPr/z/d and the previous zd/dd; exits labelled boundary/negative-curvature return the "
+          "projection under the matching guard and interior exits return the iterate under the residual guard (CG solver and "
+          "its subspace sibling); (D2) every dogleg return is justified by its path condition and the Cauchy point is a "
+          "non-positive multiple of the gradient on both curvature branches; (D3) treigen.solve type-checks in an index-space "
+          "type system (space vs eigen-mode axes; eigh gives eigenvectors as columns), returns space vectors, and its hard-case "
+          "multiplier puts the step on the boundary and stays finite when p is orthogonal to the eigenvector. Model decrease "
+          ">= Cauchy decrease, interior Newton residuals and global optimality are NOT decided."),
+    design_ref="DESIGN.md section 4, C06",
+    technique="static analysis: algebraic normal forms with algebraic/Gram atoms, dominator rules on labelled exits, currentness of loop-carried arguments via reaching definitions, index-space type inference")
+
 NA = {}
 
 
